@@ -81,66 +81,105 @@ func c16WordOfProduct(c *big.Int, k int, target uint64) *big.Int {
 	return x
 }
 
-// c16MontAccExtreme returns canonical (a, b) whose Montgomery forms A = a*2^256, B = b*2^256 (mod m) make the accumulator after the
-// first round of the word-by-word Montgomery product A*B — (A0*B + q0*m) / 2^64 with q0 = A0*B0*(-1/m) mod 2^64 — fall into
-// [2^256 - 2^192, 2^256): A0 and q0 are chosen next to 2^64, B0 is solved for q0, the rest of B is taken from the admissible window.
+// c16MontAccExtreme returns canonical (a, b) whose Montgomery forms A = a*2^256, B = b*2^256 (mod m) make the accumulator of the
+// word-by-word Montgomery product A*B after round r (r = 1, 2 or 3, drawn) — (A_low*B + Q*m) / 2^(64r), A_low = A mod 2^(64r),
+// Q the r Montgomery quotient words — fall into [2^256 - 2^192, 2^256), the state from which a carry into the next word is most easily
+// lost. The low r limbs of both operands fix Q (B_low is SOLVED so that Q is next to 2^(64r); for a square, A_low is searched);
+// the accumulator is then affine in the remaining limbs of B, which are taken from the admissible window. For a square a == b.
 func c16MontAccExtreme(t *rapid.T, m *big.Int) (a, b *big.Int, ok bool) {
-	two64 := new(big.Int).Lsh(big.NewInt(1), 64)
-	r := gen.Rand(t, "montacc.seed")
-	v := int64(2*gen.Uniform(t, "montacc.v", 0, 1<<12) + 1) // odd, so that A0 is odd
-	u := int64(gen.Uniform(t, "montacc.u", 1, 1<<12))
-	a0 := new(big.Int).Sub(two64, big.NewInt(v))
-	q0 := new(big.Int).Sub(two64, big.NewInt(u))
-	mprime := new(big.Int).ModInverse(m, two64)
-	mprime.Neg(mprime).Mod(mprime, two64)
-	den := new(big.Int).Mul(a0, mprime)
-	den.Mod(den, two64)
-	inv := new(big.Int).ModInverse(den, two64)
-	if inv == nil {
+	rnd := gen.Rand(t, "montacc.seed")
+	r := uint(gen.Uniform(t, "montacc.round", 1, 3))
+	square := gen.Uniform(t, "montacc.square", 0, 2) == 0
+	W := new(big.Int).Lsh(big.NewInt(1), 64*r)
+	mprime := new(big.Int).ModInverse(m, W)
+	mprime.Neg(mprime).Mod(mprime, W)
+	rinv := new(big.Int).ModInverse(new(big.Int).Lsh(big.NewInt(1), 256), m)
+	randW := func() *big.Int { v := new(big.Int).SetBytes(gen.RandBytes(rnd, 32)); return v.Mod(v, W) }
+	var Alow, Blow, Q *big.Int
+	if square {
+		for try := 0; try < 20000 && Q == nil; try++ {
+			x := randW()
+			x.SetBit(x, 0, 1)
+			q := new(big.Int).Mul(x, x)
+			q.Mul(q, mprime).Mod(q, W)
+			if new(big.Int).Rsh(q, 64*r-10).Cmp(big.NewInt(1023)) == 0 { // top ten bits set
+				Alow, Blow, Q = x, x, q
+			}
+		}
+		if Q == nil {
+			return nil, nil, false
+		}
+	} else {
+		Alow = new(big.Int).Sub(W, new(big.Int).SetInt64(int64(2*gen.Uniform(t, "montacc.v", 0, 1<<12)+1)))
+		if gen.Bool(t, "montacc.randA") {
+			Alow = randW()
+			Alow.SetBit(Alow, 0, 1).SetBit(Alow, int(64*r-1), 1)
+		}
+		Q = new(big.Int).Sub(W, new(big.Int).SetInt64(int64(gen.Uniform(t, "montacc.u", 1, 1<<12))))
+		den := new(big.Int).Mul(Alow, mprime)
+		den.Mod(den, W)
+		inv := new(big.Int).ModInverse(den, W)
+		if inv == nil {
+			return nil, nil, false
+		}
+		Blow = new(big.Int).Mul(Q, inv)
+		Blow.Mod(Blow, W)
+	}
+	// A_low*(B_low + W*B_high) + Q*m  in  [(2^256-2^192)*W, 2^256*W)
+	c := new(big.Int).Mul(Alow, Blow)
+	c.Add(c, new(big.Int).Mul(Q, m))
+	step := new(big.Int).Mul(Alow, W)
+	lo := new(big.Int).Sub(new(big.Int).Lsh(big.NewInt(1), 256), new(big.Int).Lsh(big.NewInt(1), 192))
+	lo.Mul(lo, W).Sub(lo, c)
+	hi := new(big.Int).Lsh(W, 256)
+	hi.Sub(hi, big.NewInt(1)).Sub(hi, c)
+	if hi.Sign() < 0 {
 		return nil, nil, false
 	}
-	b0 := new(big.Int).Mul(q0, inv)
-	b0.Mod(b0, two64)
-	top := new(big.Int).Lsh(big.NewInt(1), 320)
-	qm := new(big.Int).Mul(q0, m)
-	lo := new(big.Int).Sub(top, new(big.Int).Lsh(big.NewInt(1), 256))
-	lo.Sub(lo, qm).Add(lo, a0).Sub(lo, big.NewInt(1)).Div(lo, a0) // ceil
-	hi := new(big.Int).Sub(top, big.NewInt(1))
-	hi.Sub(hi, qm).Div(hi, a0)
-	if lo.Sign() < 0 || hi.Cmp(lo) <= 0 {
+	bhLo := new(big.Int)
+	if lo.Sign() > 0 {
+		bhLo.Add(lo, step).Sub(bhLo, big.NewInt(1)).Div(bhLo, step)
+	}
+	bhHi := new(big.Int).Div(hi, step)
+	if bhHi.Cmp(bhLo) < 0 {
 		return nil, nil, false
 	}
-	B := new(big.Int).Sub(b0, lo)
-	B.Mod(B, two64).Add(B, lo) // smallest value >= lo with low limb b0
-	span := new(big.Int).Sub(hi, B)
-	if span.Sign() < 0 {
-		return nil, nil, false
-	}
-	span.Rsh(span, 64)
+	span := new(big.Int).Sub(bhHi, bhLo)
+	bh := new(big.Int).Set(bhLo)
 	if span.Sign() > 0 {
-		k := new(big.Int).SetBytes(gen.RandBytes(r, 32))
-		k.Mod(k, span)
-		B.Add(B, k.Lsh(k, 64))
+		k := new(big.Int).SetBytes(gen.RandBytes(rnd, 32))
+		bh.Add(bh, k.Mod(k, new(big.Int).Add(span, big.NewInt(1))))
 	}
+	if bh.BitLen() > int(64*(4-r)) {
+		return nil, nil, false
+	}
+	B := new(big.Int).Add(Blow, new(big.Int).Mul(bh, W))
 	if B.Cmp(m) >= 0 {
 		return nil, nil, false
 	}
-	A := new(big.Int).SetBytes(gen.RandBytes(r, 32))
-	A.Rsh(A, 64).Lsh(A, 64).Or(A, a0)
-	if A.Cmp(m) >= 0 {
-		A.SetBit(A, 255, 0)
+	var A *big.Int
+	if square {
+		A = B
+	} else {
+		A = new(big.Int).SetBytes(gen.RandBytes(rnd, 32))
+		A.Rsh(A, 64*r).Lsh(A, 64*r).Or(A, Alow)
+		if A.Cmp(m) >= 0 {
+			A.SetBit(A, 255, 0)
+			if A.Cmp(m) >= 0 {
+				return nil, nil, false
+			}
+		}
 	}
 	// self-check of the construction
-	acc := new(big.Int).Mul(a0, B)
-	acc.Add(acc, qm)
-	if new(big.Int).Mod(acc, two64).Sign() != 0 {
-		t.Fatalf("HARNESS: Montgomery quotient not as solved")
+	acc := new(big.Int).Mul(Alow, B)
+	acc.Add(acc, new(big.Int).Mul(Q, m))
+	if new(big.Int).Mod(acc, W).Sign() != 0 {
+		t.Fatalf("HARNESS: Montgomery quotient words not as solved (round %d, square %v)", r, square)
 	}
-	acc.Rsh(acc, 64)
-	if acc.Cmp(new(big.Int).Lsh(big.NewInt(1), 256)) >= 0 || new(big.Int).Rsh(acc, 192).Cmp(new(big.Int).SetUint64(^uint64(0))) != 0 {
-		t.Fatalf("HARNESS: accumulator %x not in the top window", acc)
+	acc.Rsh(acc, 64*r)
+	if acc.BitLen() > 256 || new(big.Int).Rsh(acc, 192).Cmp(new(big.Int).SetUint64(^uint64(0))) != 0 {
+		t.Fatalf("HARNESS: accumulator %x not in the top window (round %d, square %v)", acc, r, square)
 	}
-	rinv := new(big.Int).ModInverse(new(big.Int).Lsh(big.NewInt(1), 256), m)
 	a = new(big.Int).Mul(A, rinv)
 	b = new(big.Int).Mul(B, rinv)
 	return a.Mod(a, m), b.Mod(b, m), true
@@ -315,7 +354,7 @@ func c16Check(t vt.TB, rec *stats.Recorder, f *c16Field, op string, got interfac
 
 func TestVerif_C16_Ops(t *testing.T) {
 	rec := stats.Get("C16", "ops")
-	rec.Rule("rapid: field in {p,n}; operands a,b canonical residues whose 64-bit limbs are drawn from {0,1,2,2^32-1,2^32,2^32+1,2^63-1,2^63,2^64-2,2^64-1, limbs of p and n and limb±1} or uniformly, or 0..4 / m-1..m-5, or uniform mod m, or a pair solved so that the first-round accumulator of the Montgomery product is in the top 2^-64 of its range; ops add, sub, neg, mul, square, select(cond 0/1), Set, Bytes/SetBytes round trip, Equal/IsZero, each binary op / Select / Opp also with the receiver aliasing the first, the second or both operands; oracle math/big mod m and result < m. Non-trivial: an operand with an extreme limb, or the result needed the final conditional correction (a+b>=m, a<b); distinct by (field,a,b).")
+	rec.Rule("rapid: field in {p,n}; operands a,b canonical residues whose 64-bit limbs are drawn from {0,1,2,2^32-1,2^32,2^32+1,2^63-1,2^63,2^64-2,2^64-1, limbs of p and n and limb±1} or uniformly, or 0..4 / m-1..m-5, or uniform mod m, or a pair (for squaring: one operand) solved so that the accumulator of the Montgomery product after round 1, 2 or 3 is in the top 2^-64 of its range; ops add, sub, neg, mul, square, select(cond 0/1), Set, Bytes/SetBytes round trip, Equal/IsZero, each binary op / Select / Opp also with the receiver aliasing the first, the second or both operands; oracle math/big mod m and result < m. Non-trivial: an operand with an extreme limb, or the result needed the final conditional correction (a+b>=m, a<b); distinct by (field,a,b).")
 	t.Cleanup(stats.FlushAll)
 	rapid.Check(t, func(t *rapid.T) {
 		f := &c16Fields[gen.Int(t, "field", 0, 1)]
@@ -354,6 +393,7 @@ func TestVerif_C16_Ops(t *testing.T) {
 		c16Check(t, rec, f, "mul", f.bin("mul", B, A), mod(new(big.Int).Mul(a, b)), b, a)
 		c16Check(t, rec, f, "opp", f.un("opp", A), mod(new(big.Int).Neg(a)), a)
 		c16Check(t, rec, f, "square", f.un("square", A), mod(new(big.Int).Mul(a, a)), a)
+		c16Check(t, rec, f, "square", f.un("square", B), mod(new(big.Int).Mul(b, b)), b)
 		c16Check(t, rec, f, "set", f.un("set", A), a, a)
 		c16Check(t, rec, f, "select1", f.sel(A, B, 1), a, a, b)
 		c16Check(t, rec, f, "select0", f.sel(A, B, 0), b, a, b)
